@@ -35,7 +35,10 @@ pub struct FitOut<T: Sc> {
     pub termination: String,
     pub n_eval: usize,
     pub objective: T,
+    /// FitResult::was_successful()
     pub was_successful: bool,
+    /// minimization_report.termination.was_successful() - the optimizer's own classification
+    pub report_successful: bool,
     pub fr: Fr<T>,
 }
 
@@ -106,6 +109,7 @@ fn fitout_single<T: Sc>(r: Result<FitResult<BM<T>, false>, FitResult<BM<T>, fals
         n_eval: fr.minimization_report.number_of_evaluations,
         objective: fr.minimization_report.objective_function,
         was_successful: fr.was_successful(),
+        report_successful: fr.minimization_report.termination.was_successful(),
         fr: Fr::S(fr),
     }
 }
@@ -120,6 +124,7 @@ fn fitout_mrhs<T: Sc>(r: Result<FitResult<BM<T>, true>, FitResult<BM<T>, true>>)
         n_eval: fr.minimization_report.number_of_evaluations,
         objective: fr.minimization_report.objective_function,
         was_successful: fr.was_successful(),
+        report_successful: fr.minimization_report.termination.was_successful(),
         fr: Fr::M(fr),
     }
 }
